@@ -1101,9 +1101,9 @@ def c14(run):
 
 
 # ------------------------------------------------------------------------------ C01
-def conc_cfg(direct, ll, sl):
-    return ('CONSTANTS P = {"p1", "p2", "p3"} Limits = {0, 1, 2, 3} Limit0 = 1 Direct = %s LimiterLock = %s StrategyLock = %s Rounds = 2\n'
-            'SPECIFICATION Spec\nINVARIANTS NeverOver RefusedAtLimit NonNegative\nPROPERTY GrantHadRoom\nCHECK_DEADLOCK FALSE\n') % (direct, ll, sl)
+def conc_cfg(direct, ll, sl, incr="add", gauge="add"):
+    return ('CONSTANTS P = {"p1", "p2", "p3"} Limits = {0, 1, 2, 3} Limit0 = 1 Direct = %s LimiterLock = %s StrategyLock = %s Incr = "%s" Gauge = "%s" Rounds = 2\n'
+            'SPECIFICATION Spec\nINVARIANTS NeverOver RefusedAtLimit NonNegative GaugeExact\nPROPERTY GrantHadRoom\nCHECK_DEADLOCK FALSE\n') % (direct, ll, sl, incr, gauge)
 
 
 GATE_CFG = "CONSTANT CheckN = %s\nINIT Init\nNEXT Next\nCONSTRAINT Mark\nINVARIANT NeverOver\nPOSTCONDITION Report\nCHECK_DEADLOCK FALSE\n"
@@ -1207,6 +1207,7 @@ def c01(run):
         run.mc("DefaultLimiterConc", name + ".cfg", cfg_text=conc_cfg(*c), label="mc:DefaultLimiterConc/" + name)
     run.neg("DefaultLimiterConc", "neg1.cfg", cfg_text=conc_cfg("FALSE", "FALSE", "FALSE"), label="neg:limiter-lock-removed")
     run.neg("DefaultLimiterConc", "neg2.cfg", cfg_text=conc_cfg("TRUE", "TRUE", "FALSE"), label="neg:precise-mutex-removed")
+    run.neg("DefaultLimiterConc", "neg3.cfg", cfg_text=conc_cfg("FALSE", "TRUE", "FALSE", incr="cas"), label="neg:compare-and-swap-without-retry")
     # attack schedule of the weakened model, realised in real time on the real code
     all_rejects = []
     out, _ = run.go("^TestGateAttack$", timeout=300)
@@ -1251,6 +1252,9 @@ def c02(run):
     th = run.tier == "thorough"
     wrapper_pipeline(run, "C02", ["b3l2", "q3s", "d2", "b2c"] + (["q3", "q3l", "q4t", "b3p", "d3"] if th else []), [], {"conserve"}, random_n=2000 if th else 300, handoff=True)
     completion_overlap(run, "C02", {"conserve"})
+    # design level: the limiter's gauge next to the strategy count, completions in two steps outside the limiter mutex
+    run.mc("DefaultLimiterConc", "gauge.cfg", cfg_text=conc_cfg("FALSE", "TRUE", "FALSE"), label="mc:DefaultLimiterConc/gauge")
+    run.neg("DefaultLimiterConc", "gauge_neg.cfg", cfg_text=conc_cfg("FALSE", "TRUE", "FALSE", gauge="store"), label="neg:gauge-published-by-overwrite")
 
     def lim_mm(m):
         return {"kind": "default", "what": "counts"}
